@@ -178,24 +178,44 @@ RawS(c) == IF IsPlain(c) THEN PlainS(c) ELSE IF c \in DOMAIN RawPunct THEN RawPu
 \* afterHex: previous spelling was a hex escape, whose digit run is greedy.
 IsHexForm(c, esc) == esc \in {"hex", "HEX"} \/ (esc = "octal" /\ c >= 256)
                      \/ (esc = "named" /\ c \notin DOMAIN Named /\ c >= 128)
+\* In case-insensitive contexts ("dq": inside "...", "cci": inside [[...]]) a letter is case-insensitive only
+\* when written raw (an escape always denotes exactly its code point), so letters stay raw there whatever
+\* the style; a raw hex-digit letter cannot follow a hex escape directly, so the preceding character is then
+\* spelled in octal (callers guarantee it is below 256 in that situation, see SplitCI).
+CI(ctx) == ctx \in {"dq", "cci"}
+BaseCtx(ctx) == IF ctx = "cci" THEN "cls" ELSE ctx
 CharS(c, ctx, st, afterHex) ==
-  IF st.raw /\ RawOK(c, ctx) /\ ~(afterHex /\ IsHexDigitChar(c)) /\ ~(ctx = "cls" /\ c = 94)
+  IF CI(ctx) /\ IsLetter(c) THEN [s |-> RawS(c), hex |-> FALSE]
+  ELSE IF st.raw /\ RawOK(c, BaseCtx(ctx)) /\ ~(afterHex /\ IsHexDigitChar(c)) /\ ~(BaseCtx(ctx) = "cls" /\ c = 94)
   THEN [s |-> RawS(c), hex |-> FALSE]
   ELSE [s |-> EscOf(c, st.esc), hex |-> IsHexForm(c, st.esc)]
+\* spelling of character i of cs when the next character is a raw hex-digit letter of a case-insensitive context
+NextIsRawHexLetter(cs, i, ctx) == CI(ctx) /\ i < Len(cs) /\ IsLetter(cs[i + 1]) /\ IsHexDigitChar(cs[i + 1])
+CharSBefore(c, ctx, st, afterHex, nextRawHex) ==
+  LET r == CharS(c, ctx, st, afterHex) IN
+  IF nextRawHex /\ r.hex THEN (IF c < 256 THEN [s |-> Oct3(c), hex |-> FALSE] ELSE [s |-> r.s \o "\" \"", hex |-> FALSE])   \* close and reopen the literal
+  ELSE r
 
 RECURSIVE CharsS(_, _, _, _, _)
 CharsS(cs, i, ctx, st, afterHex) ==
   IF i > Len(cs) THEN ""
-  ELSE LET r == CharS(cs[i], ctx, st, afterHex) IN r.s \o CharsS(cs, i + 1, ctx, st, r.hex)
+  ELSE LET r == CharSBefore(cs[i], ctx, st, afterHex, NextIsRawHexLetter(cs, i, ctx)) IN r.s \o CharsS(cs, i + 1, ctx, st, r.hex)
 
-RECURSIVE ItemsS(_, _, _, _)
-ItemsS(items, i, st, afterHex) ==
+RECURSIVE ItemsS(_, _, _, _, _)
+\* ctx: "cls" or "cci".  The ends of a range are folded by the builder whatever their spelling, so they
+\* follow the style ("cls"); single characters of a case-insensitive class follow the rule for letters.
+ItemsS(items, i, st, afterHex, ctx) ==
   IF i > Len(items) THEN ""
   ELSE LET it == items[i]
-           a == CharS(it.lo, "cls", st, afterHex)
+           nextRawHex == ctx = "cci" /\ i < Len(items) /\ ~items[i + 1].r /\ IsLetter(items[i + 1].lo) /\ IsHexDigitChar(items[i + 1].lo)
        IN IF it.r
-          THEN LET b == CharS(it.hi, "cls", st, FALSE) IN a.s \o "-" \o b.s \o ItemsS(items, i + 1, st, b.hex)
-          ELSE a.s \o ItemsS(items, i + 1, st, a.hex)
+          THEN LET a == CharS(it.lo, "cls", st, afterHex)
+                   b0 == CharS(it.hi, "cls", st, FALSE)
+                   b == IF nextRawHex /\ b0.hex /\ it.hi < 256 THEN [s |-> Oct3(it.hi), hex |-> FALSE] ELSE b0   \* (generators keep case-insensitive classes below 256)
+               IN a.s \o "-" \o b.s \o ItemsS(items, i + 1, st, b.hex, ctx)
+          ELSE LET a0 == CharS(it.lo, ctx, st, afterHex)
+                   a == IF nextRawHex /\ a0.hex THEN (IF it.lo < 256 THEN [s |-> Oct3(it.lo), hex |-> FALSE] ELSE a0) ELSE a0
+               IN a.s \o ItemsS(items, i + 1, st, a.hex, ctx)
 
 Atomic(e) == e.op \in {"chr", "dot", "rng", "ref", "act", "rawact", "rawpred", "pred", "chg", "ichr", "str", "cls", "cap", "nil"}
 
@@ -227,12 +247,13 @@ RenderList(es, i, sep, st, lvl) ==
 RenderE(e, st, lvl) ==
   CASE e.op = "chr" -> "'" \o CharS(e.c, "sq", st, FALSE).s \o "'"
     [] e.op = "ichr" -> "\"" \o CharS(e.c, "dq", st, FALSE).s \o "\""
-    [] e.op = "str" -> IF e.ci THEN "\"" \o CharsS(e.cs, 1, "dq", st, FALSE) \o "\""
+    [] e.op = "str" -> IF e.ci THEN Wrap("\"" \o CharsS(e.cs, 1, "dq", st, FALSE) \o "\"",
+                                           \E i \in 1..Len(e.cs) : e.cs[i] >= 256 /\ NextIsRawHexLetter(e.cs, i, "dq") /\ CharS(e.cs[i], "dq", st, FALSE).hex)
                                 ELSE "'" \o CharsS(e.cs, 1, "sq", st, FALSE) \o "'"
     [] e.op = "dot" -> "."
     [] e.op = "rng" -> "[" \o CharS(e.lo, "cls", st, FALSE).s \o "-" \o CharS(e.hi, "cls", st, FALSE).s \o "]"
     [] e.op = "cls" -> (IF e.ci THEN "[[" ELSE "[") \o (IF e.neg THEN "^" ELSE "") \o
-                       ItemsS(e.items, 1, st, FALSE) \o (IF e.ci THEN "]]" ELSE "]")
+                       ItemsS(e.items, 1, st, FALSE, IF e.ci THEN "cci" ELSE "cls") \o (IF e.ci THEN "]]" ELSE "]")
     [] e.op = "nil" -> "()"
     [] e.op = "ref" -> e.r
     [] e.op = "act" -> ActS(e.k, st)
